@@ -44,6 +44,8 @@ pub struct MNode {
     pub invalid: bool,
     /// round in which it became invalid
     pub invalid_since: Option<u32>,
+    /// the engine itself reported this node as invalidated (hook H5)
+    pub engine_invalid: bool,
     pub prev_value: Option<MV>,
     /// map_ref only: round in which it may or may not have reported a change (relaxation R2)
     pub maybe_changed: Option<u32>,
@@ -399,6 +401,12 @@ impl Model {
             let n = &self.nodes[m];
             if let Some((b, g)) = n.scope {
                 if n.invalid {
+                    // invalid for the model but not (yet) for the engine: a bind that was dropped
+                    // by its only dependant in the very round in which its input became invalid
+                    // is invalidated lazily by the engine, and so are its nodes. Do not touch them.
+                    if !n.engine_invalid {
+                        return false;
+                    }
                     continue;
                 }
                 if self.nodes[b].gen != Some(g) || !self.pinned(b, None, None) {
